@@ -128,7 +128,7 @@ def main(tier):
     probe = Check("C07", tier, dry=True)
     fake = dict(next(e for e in kern if e["cls"] == "reject"), cls="texture")
     replay_kernel_entry(core, fake, probe)
-    chk.control("flipped-table-class-detected", len(probe.violations) == 1)
+    chk.control("flipped-table-class-detected", len(probe.violations) == 1, impl_dependent=True)
 
     # ---- 4. simulated behaviours -> replay -> trace validation
     num = 150 if quick else 2500
@@ -168,7 +168,7 @@ def main(tier):
         if idx is not None:
             bad[idx]["obs"][bad[idx]["m"]]["odig"][0] = "deadbeefdeadbeef"
             rj, _ = layerb.validate_trace(bad[: idx + 1], d)
-            chk.control("rewritten-history-rejected", any(c == "history-rewritten" for _, _, c in rj), str(rj[:3]))
+            chk.control("rewritten-history-rejected", any(c == "history-rewritten" for _, _, c in rj), str(rj[:3]), impl_dependent=True)
         idx = next((i for i, e in enumerate(bad) if e["ev"] == "Update" and e["exc"] == "ValueError"), None)
         if idx is not None:
             ev = bad[idx]
@@ -176,7 +176,7 @@ def main(tier):
             ev["obs"][ev["m"]]["fdig"].append("feedfeedfeedfeed")
             ev["obs"][ev["m"]]["nf"] += 1
             rj, _ = layerb.validate_trace(bad[: idx + 1], d)
-            chk.control("failed-update-touching-history-rejected", any(c == "failed-update-touched-history" for _, _, c in rj), str(rj[:3]))
+            chk.control("failed-update-touching-history-rejected", any(c == "failed-update-touched-history" for _, _, c in rj), str(rj[:3]), impl_dependent=True)
     chk.cov["table_outcomes"] = outs
     chk.cov["replay_notes"] = comp.notes
     return chk.finish(
